@@ -1535,6 +1535,11 @@ class Frame:
         if isinstance(n.op, ast.USub):
             if isinstance(v, (int, float)):
                 return -v
+            from .bitabs_models import ANeg, _nonzero
+            if isinstance(v, ANeg):
+                return v.mag
+            if isinstance(v, AInt) and not v.signed and _nonzero(self, v):
+                return ANeg(v)
             return self.I.opaque("negation of abstract int")
         if isinstance(n.op, ast.Invert):
             if isinstance(v, int):
